@@ -42,7 +42,7 @@ type dlg struct {
 	rLogin   int // rejected attempts (telnet: user+password pairs; ssh: password)
 	rPP      int // -1: no passphrase asked; else rejected passphrase attempts
 	errLine  int // -1 none, else index into sshErrors
-	errWhere int // 0 before anything, 1 after the banner
+	errWhere int // 0 before anything, 1 after the banner, 2 after the banner and followed in the same burst by more client chatter than the prompt search depth
 	maxChunk int
 	env      int
 	trail    bool // the device prints trailText right after the first shell prompt
@@ -157,6 +157,9 @@ func build(s dlg) *dev.CLIDevice {
 		} else {
 			pre += sshErrors[s.errLine] + "\n"
 			d.NoFirst = true
+			if s.errWhere == 2 {
+				pre += strings.Repeat("debug1 client chatter after the failure 0123456789 0123456789\n", 20)
+			}
 		}
 	}
 	d.Banner = pre
@@ -447,7 +450,7 @@ func scenarios(tier string) []sched.Scenario {
 		}
 	}
 	for ei := range sshErrors {
-		for _, where := range []int{0, 1} {
+		for _, where := range []int{0, 1, 2} {
 			for _, mc := range presets {
 				out = append(out, scenario(dlg{"ssh", 1, 0, 2, 0, -1, ei, where, mc, envOf(mc), false}))
 			}
